@@ -17,24 +17,29 @@ paths, own candidate enumeration, marker tokens; see progen_c19.Reading):
  listing    sites U refusals == independently enumerated candidates, disjoint,
             no duplicates, every reason a non-empty string, cursors of the
             right kind owned by the program that was listed.
- where      where=j (j<k) / where=sites[j] / where=None returns; every reported
-            edit lies at (or under) a selected site, every selected site is
-            covered by an edit; statements outside the selected sites (not
-            beneath an edit, not an ancestor of one, not reported as
-            expression-rewritten) keep their text, are is_equiv, and their
-            one-step forwarded cursor resolves to them; selected statement
-            sites no longer occur verbatim, unselected ones nested in a selected
-            one still do; for expression sites the remaining candidates are
-            exactly the unselected ones; where=sites[j] == where=j when the
-            cursor selects only site j; where in {k, k+1, -1} raises
-            TransformReferenceError.
+ where      where=j (j<k) / where=sites[j] / where=None returns (any exception is
+            judged: k sites were listed); every reported edit lies at (or under)
+            a selected site, every selected site is covered by an edit;
+            statements outside the reported edits (not beneath one, not holding
+            one, not reported as expression-rewritten) keep their text, are
+            is_equiv, and their one-step forwarded cursor resolves to them at the
+            place a replay of the edits predicts; a consumed statement forwards
+            to exactly the run that replaced it; what stands in the place of a
+            selected statement site differs from it, loops nested in a selected
+            loop are rewritten iff selected themselves; for expression sites the
+            remaining candidates are exactly the unselected ones;
+            where=sites[j] == where=j when the cursor selects only site j;
+            where in {k, k+1, -1} raises TransformReferenceError.
  forward    a cursor taken on EVERY statement of the original program and
             forwarded with Function.forward across the whole history either
             raises TransformReferenceError or resolves to a statement/region
             whose text contains every marker of the statement it was taken on
-            and no marker of an unrelated original statement; a statement that
-            no reported edit touched along the way (tracked independently by
-            its unique text) must resolve, to exactly that statement, unchanged.
+            and no marker of an unrelated original statement, at the place an
+            independent replay of the reported edit logs (progen_c19.ref_chain)
+            puts it; a statement that no reported edit touched along the way
+            (tracked independently by its unique text) must resolve, to exactly
+            that statement, unchanged.  Raising where the replay resolves is
+            allowed by the statement and only counted.
 
 Not demanded: which candidates a strategy refuses (only that each candidate is
 listed or explained); a listing that raises something other than a Transform*
@@ -57,8 +62,7 @@ from fpy2.ast import fpyast as A
 from fpy2.ast.fpyast import Integer
 from fpy2 import strategies as ST
 from fpy2.strategies import (
-    BlockCursor, ExprCursor, StmtCursor, TransformDeclined, TransformError,
-    TransformReferenceError, refusals, sites,
+    BlockCursor, ExprCursor, StmtCursor, TransformError, TransformReferenceError, refusals, sites,
 )
 from fpy2.transform import ForUnrollStrategy, SplitLoopStrategy
 
@@ -768,10 +772,10 @@ def explore_program(r: ShardResult, name: str, src: str, depth: int, variants=Tr
 
 QUICK_ALPHABET = ('RfU', 'Rx', 'C1')
 DEEP_ALPHABET = ('RfU', 'Rx', 'C1')
-FULL_ALPHABET = ('RfU', 'Rr', 'Rx', 'Rs', 'R2', 'Rc', 'C1', 'C2', 'C11', 'C3', 'Cn', 'M2')   # A, Rn: fixed leaves
+FULL_ALPHABET = ('RfU', 'Rr', 'Rx', 'Rs', 'R2', 'C1', 'C2', 'C11', 'Cn', 'M2')   # A, Rn, Rc, C3: fixed leaves only
 K_SKELETONS = tuple(k for k, _, _ in G.SKELETONS if k.startswith('K'))
 D_SKELETONS = tuple(k for k, _, _ in G.SKELETONS if k.startswith('D'))
-EXTRA_PER_SEED = 12
+EXTRA_PER_SEED = 8
 
 
 def _programs(skeletons, alphabet):
